@@ -24,6 +24,9 @@ fn settings(v: &Value) -> PoolSettings {
             s.plugins = Some(plugins);
         }
     }
+    if let Some(n) = v.get("parser_max_length").and_then(|x| x.as_u64()) {
+        s.query_parser_max_length = Some(n as usize);
+    }
     s.db = v.get("db").and_then(|x| x.as_str()).unwrap_or("db").to_string();
     if let Some(u) = v.get("user").and_then(|x| x.as_str()) {
         s.user.username = u.to_string();
